@@ -270,6 +270,14 @@ def ref_step(desc, vals, pars, opts=None):
                 )
 
     def downstream_density(n, lk):
+        r_ = _stock_downstream_density(n, lk)
+        b_ = (desc.get("node_block") or {}).get(n)
+        if b_ is not None:  # user-defined node kind: a look-ahead reading averaged in
+            br.append(("user.node", "blocked-downstream-density"))
+            r_ = 0.5 * (r_ + b_)
+        return r_
+
+    def _stock_downstream_density(n, lk):
         if n in dst:
             d = dst[n]
             rhoN = vals[lk["id"]]["rho"][-1]
